@@ -346,6 +346,21 @@ def gen_cases(rng, n):
     return cases
 
 
+def exhaustive_cases(depth=3):
+    """every operation sequence up to `depth` over a 12-operation alphabet on one two-element parameter
+    (thorough tier; validation of the model and of the oracle on small scopes)"""
+    import itertools
+    alpha = [["add", 0, [0.25, 0.5], [0.125, 0.0]], ["add", 0, [0.5, 1.0], None], ["add", 0, None, [0.75, 0.25]],
+             ["getpos", 0], ["accupdate", 0], ["update", True], ["update", False], ["clear"], ["delneg", 0],
+             ["reduction", 0, "amax"], ["full", 0, ["mul"], 1.0, 0.0], ["upper", 0, ["sharpU"], 0.5]]
+    cases = []
+    for d in range(1, depth + 1):
+        for seq in itertools.product(range(len(alpha)), repeat=d):
+            ops = [["newupdater", [0], None]] + [copy.deepcopy(alpha[i]) for i in seq] + [["update", True]]
+            cases.append({"stream": "exhaustive", "host": "double", "params": [[0, [2], [0.5, 1.0]]], "ops": ops})
+    return cases
+
+
 # ------------------------------------------------------------------ rendering to Coq
 def q_t(vals):
     return F.coq_list([F.coq_float(float(v)) for v in vals])
@@ -705,15 +720,20 @@ def range_claim(acc):
 
 
 def sharp_limits(acc):
+    """limits guarded by a sharp gate, for the pure sharp configurations (full sharp, or sharp / identity slots):
+    with another kernel in the opposite slot the opposite part need not be non-negative"""
     b = acc.bind
     mx = mn = None
     if b[0] == "full" and b[1][0] == "sharp":
         mx, mn = b[2], b[3]
     if b[0] == "half":
-        if b[1] is not None and b[1][0][0] == "sharpU":
-            mx = b[1][1]
-        if b[2] is not None and b[2][0][0] == "sharpL":
-            mn = b[2][1]
+        up_ok = b[1] is None or b[1][0][0] == "sharpU"
+        lo_ok = b[2] is None or b[2][0][0] == "sharpL"
+        if up_ok and lo_ok:
+            if b[1] is not None:
+                mx = b[1][1]
+            if b[2] is not None:
+                mn = b[2][1]
     return mx, mn
 
 
@@ -979,6 +999,8 @@ def run(ctx):
     rng = random.Random(ctx["seed"])
     n = 300 if ctx["tier"] == "quick" else 5000
     base = load_corpus() + gen_cases(rng, n)
+    if ctx["tier"] == "thorough":
+        base += exhaustive_cases(3)
     cases = list(base)
     variants = []          # (index of original, index of variant)
     for idx, c in enumerate(base):
@@ -989,6 +1011,9 @@ def run(ctx):
                 variants.append((idx, len(cases)))
                 cases.append(v)
     impl = F.run_impl(IMPL, {"cases": cases})
+    # the executable instance is no dependency of the obligations: (re)build it against the kernels just translated
+    with F.BuildLock():
+        F.make(["C10/UpdaterExec.vo"], timeout=600)
     model = F.eval_terms(ID, HEADER, [q_case(c) for c in cases], shard=max(8, len(cases) // (2 * F.JOBS) + 1))
     report_stale = stale_listed()
     mismatches, oracle_fail = [], []
@@ -1024,7 +1049,8 @@ def run(ctx):
                 "'smooth' flavour with power kernels, mean, l2), a malformed stream (wrong part sizes, unknown names, None "
                 "limits, missing updater), long update histories (up to 40 rounds) under range-preserving dependence, sharp "
                 "cases on/beyond the limits, and order-permuted twins of half of the cases; non-trivial = >=4 ops with a "
-                "contribution and an application; distinct by full case text",
+                "contribution and an application; distinct by full case text"
+                + ("; plus every sequence of depth<=3 over a 12-operation alphabet on one parameter" if ctx["tier"] == "thorough" else ""),
         "op_distribution": dict(dist), "error_distribution": dict(errs),
         "stream_distribution": dict(Counter(c.get("stream", "corpus") for c in cases)),
         "oracle_checks": dict(checks),
